@@ -48,7 +48,8 @@ func (c *Ctx) noDropLoop(rule string, fn *ssa.Function, what string, pred func(i
 					if lb == b {
 						continue
 					}
-					d := av.At(lb)
+					// the way this latch is taken: a `continue` whose block was folded away leaves only the branch outcome
+					d := av.BackEdgeCond(lb, header)
 					if len(d) == 0 {
 						continue
 					}
@@ -268,6 +269,14 @@ func C17(c *Ctx) {
 			}
 		}
 		r.Check("C17-1", key+":no-other-filter", c.InstrPos(a), extra == "", "a further condition decides whether a marked interface is converted: "+extra)
+		// no iteration may finish without an entry unless the object is not an interface, not in the input file, or not marked
+		// (a marked interface whose notations fail to parse must end the run, not be passed over)
+		notIface := func(l core.Lit) bool { return isIface(core.Lit{V: l.V, Neg: !l.Neg, T: l.T}) }
+		notHere := func(l core.Lit) bool { return sameFile(core.Lit{V: l.V, Neg: !l.Neg, T: l.T}) }
+		notMarked := func(l core.Lit) bool { return marked(core.Lit{V: l.V, Neg: !l.Neg, T: l.T}) }
+		c.noDropLoop("C17-1", fn, "appending the interface entry", func(in ssa.Instruction) bool {
+			return isAppendTo(c, in, func(t *core.Term) bool { return t.V == ssa.Value(a) })
+		}, notIface, notHere, notMarked)
 		// C17-4 marker
 		mk := f["marker"]
 		okMk := mk != nil && c.O.Of(mk).Kind == "extract" && c.O.Of(mk).Name == "0" && c.O.Of(mk).Args[0].IsCallTo("github.com/matoous/go-nanoid.Nanoid")
@@ -317,10 +326,12 @@ func C17(c *Ctx) {
 	c.anchoredRegexpRule("C17-6", "parser.reConvergen", "parser.reNotation")
 	c.patternWitnessRule("C17-7")
 	c.lineSubjectRule("C17-8")
+	c.cutRangeRule("C17-9")
 
 	r.Rule("C17-5", "util.GetDocCommentOn returns only `Doc` comment groups of the enclosing declaration nodes (never a trailing line comment), each under a non-nil test of that same Doc link")
 	if fn := c.MustFunc("C17-5", "/pkg/util", "GetDocCommentOn"); fn != nil {
 		// isDocAddr: the address is &X.Doc of an ast node (possibly through a local pointer variable / φ)
+		nilEdge := map[*ssa.Phi]bool{}
 		var isDocAddr func(a ssa.Value, d int) bool
 		isDocAddr = func(a ssa.Value, d int) bool {
 			if d > 4 {
@@ -332,6 +343,10 @@ func C17(c *Ctx) {
 				return len(n) > 8 && n[:4] == "ast." && n[len(n)-4:] == ".Doc"
 			case *ssa.Phi:
 				for _, e := range x.Edges {
+					if k, isK := e.(*ssa.Const); isK && k.IsNil() {
+						nilEdge[x] = true // "no Doc member": allowed when the pointer is tested before it is followed
+						continue
+					}
 					if !isDocAddr(e, d+1) {
 						return false
 					}
@@ -380,6 +395,10 @@ func C17(c *Ctx) {
 				}
 				return x.V != nil && addrOf(x.V) != nil && addrOf(x.V) == addrOf(v)
 			}))
+			if ph, isPhi := u.X.(*ssa.Phi); okDoc && isLoad && isPhi && nilEdge[ph] {
+				// the address itself may be nil: it must be tested too
+				okDoc = d.Implies(c.M(false, isNilCmp(func(x *core.Term) bool { return x.V == ssa.Value(ph) })))
+			}
 			r.Check("C17-5", sprintf("%s:return%d", FnKey(fn), i+1), c.InstrPos(ret), okDoc && d.Implies(nonNil), "the doc lookup may return something other than a non-nil Doc group: "+t.String())
 		}
 		r.Floor("C17-5", "Doc-returning branches of GetDocCommentOn", n, 1)
